@@ -17,6 +17,18 @@ template<class V> struct in_it {
   bool operator==(const in_it& o) const { return p == o.p; }
   bool operator!=(const in_it& o) const { return p != o.p; }
 };
+// a genuinely single-pass input iterator (istream_iterator-like): all copies share one position, so traversing a copy consumes the sequence
+template<class V> struct sp_it {
+  using iterator_category = std::input_iterator_tag; using value_type = V; using difference_type = std::ptrdiff_t; using pointer = const V*; using reference = V;
+  const char** cur; const char* endp;
+  struct proxy { V v; V operator*() const { return v; } };
+  V operator*() const { return (V)**cur; }
+  sp_it& operator++(){ ++*cur; return *this; }
+  proxy operator++(int){ proxy t{(V)**cur}; ++*cur; return t; }
+  bool at_end() const { return !cur || *cur == endp; }
+  bool operator==(const sp_it& o) const { return at_end() == o.at_end(); }
+  bool operator!=(const sp_it& o) const { return at_end() != o.at_end(); }
+};
 template<class V> struct vspan { const V* b; const V* e; const V* begin() const { return b; } const V* end() const { return e; } };
 #define INST(I, V, L, EN) \
  using D_##I = sbepp::detail::dynamic_array_ref<char, V, L, EN>; \
@@ -41,6 +53,8 @@ template<class V> struct vspan { const V* b; const V* e; const V* begin() const 
  W void resized_##I(char* p, size_t cap, uint64_t n){ D_##I d{p, cap}; d.resize((typename D_##I::size_type)n, sbepp::default_init); } \
  W void assignn_##I(char* p, size_t cap, uint64_t c, uint8_t v){ D_##I d{p, cap}; d.assign((typename D_##I::size_type)c, (V)v); } \
  W void assignit_##I(char* p, size_t cap, const char* s, size_t k){ D_##I d{p, cap}; d.assign((const V*)s, (const V*)s + k); } \
+ W void assignsp_##I(char* p, size_t cap, const char* s, size_t k){ D_##I d{p, cap}; const char* cur = s; d.assign(sp_it<V>{&cur, s + k}, sp_it<V>{nullptr, nullptr}); } \
+ W int64_t insertsp_##I(char* p, size_t cap, size_t pos, const char* s, size_t k){ D_##I d{p, cap}; const char* cur = s; auto it = d.insert(d.begin() + pos, sp_it<V>{&cur, s + k}, sp_it<V>{nullptr, nullptr}); return (const char*)it - p; } \
  W void assignil0_##I(char* p, size_t cap, const char* s){ D_##I d{p, cap}; d.assign(std::initializer_list<V>{}); } \
  W void assignil1_##I(char* p, size_t cap, const char* s){ D_##I d{p, cap}; d.assign({(V)s[0]}); } \
  W void assignil2_##I(char* p, size_t cap, const char* s){ D_##I d{p, cap}; d.assign({(V)s[0], (V)s[1]}); } \
@@ -98,10 +112,11 @@ def harness(u, inst, cap, checked):
   case 3: VASSUME(L + cnt <= CAP); NL = L + cnt; eret = LSZ + pos;
           for (unsigned i = 0; i < CAP; i++) exp[i] = i < pos ? opay[i] : (i < pos + cnt ? v : opay[i >= cnt ? i - cnt : 0]);
           CALL(ret = insertn_%(I)s(view, VS, pos, cnt, v)); break;
-  case 4: case 5: case 6: VASSUME(L + k <= CAP); NL = L + k; eret = LSZ + pos;
+  case 4: case 5: case 6: case 24: VASSUME(L + k <= CAP); NL = L + k; eret = LSZ + pos;
           for (unsigned i = 0; i < CAP; i++) exp[i] = i < pos ? opay[i] : (i < pos + k ? s[i - pos] : opay[i >= k ? i - k : 0]);
           if (which == 4) CALL(ret = insertfw_%(I)s(view, VS, pos, s, k));
           else if (which == 5) CALL(ret = insertin_%(I)s(view, VS, pos, s, k));
+          else if (which == 24) CALL(ret = insertsp_%(I)s(view, VS, pos, s, k));   /* single-pass input iterators */
           else if (k == 0) CALL(ret = insertil0_%(I)s(view, VS, pos, s));
           else if (k == 1) CALL(ret = insertil1_%(I)s(view, VS, pos, s));
           else if (k == 2) CALL(ret = insertil2_%(I)s(view, VS, pos, s));
@@ -117,8 +132,9 @@ def harness(u, inst, cap, checked):
   case 10: NL = cnt; for (unsigned i = 0; i < CAP; i++) exp[i] = i < L ? opay[i] : v; CALL(resizev_%(I)s(view, VS, cnt, v)); break;
   case 11: NL = cnt; for (unsigned i = 0; i < CAP; i++) chk[i] = i < L; CALL(resized_%(I)s(view, VS, cnt)); break;
   case 12: NL = cnt; for (unsigned i = 0; i < CAP; i++) exp[i] = v; CALL(assignn_%(I)s(view, VS, cnt, v)); break;
-  case 13: case 14: case 15: case 16: NL = k; for (unsigned i = 0; i < CAP; i++) exp[i] = s[i < 3 ? i : 3];
+  case 13: case 14: case 15: case 16: case 23: NL = k; for (unsigned i = 0; i < CAP; i++) exp[i] = s[i < 3 ? i : 3];
           if (which == 13) CALL(assignit_%(I)s(view, VS, s, k));
+          else if (which == 23) CALL(assignsp_%(I)s(view, VS, s, k));   /* single-pass input iterators */
           else if (which == 16) CALL(assignrg_%(I)s(view, VS, s, k));
           else if (which == 15) { for (unsigned i = 0; i < 3; i++) if (i < k) VASSUME(s[i] != 0); s[k] = 0; CALL(assignstr_%(I)s(view, VS, s)); }
           else if (k == 0) CALL(assignil0_%(I)s(view, VS, s));
@@ -157,6 +173,30 @@ def harness(u, inst, cap, checked):
     return hgen.harness([u], b)
 
 
+def wide_len_harness(u, inst):
+    """operations that touch only the length prefix, from a state whose length is ANYWHERE in the length type (the payload is not in the buffer: none of these operations may access it)"""
+    (I, v, l, en, lsz, be) = inst
+    b = r"""
+  enum { LSZ = %(lsz)d, TOT = LSZ + 6 };
+  IN_BYTES(g, TOT); unsigned char old[TOT]; verif_copy(old, g, TOT);
+  u64 tmax = %(tmax)s;
+  u64 L = ref_rd(g, LSZ, %(be)d); VASSUME(L <= 0xfffffffffff0ULL);
+  IN(u64, n); VASSUME(n <= tmax && n <= 0xfffffffffff0ULL);
+  u64 claimed = (u64)1 << 48;     /* the view claims a buffer large enough for any length below 2^48; lengths beyond that must be refused by the size check, not wrapped */
+  u64 NL = L; SELECT(which);
+  if (which == 0) { VASSUME(L >= 1); CALL(pop_back_%(I)s(g, claimed)); NL = L - 1; }
+  else if (which == 1) { CALL(resized_%(I)s(g, claimed, n)); NL = n; VASSUME(LSZ + n <= claimed); }
+  else if (which == 2) { CALL(clear_%(I)s(g, claimed)); NL = 0; }
+  else if (which == 3) { u64 s = 0; _Bool e = 0; i64 en_ = -1; CALL(s = size_%(I)s(g, claimed)); CALL(e = empty_%(I)s(g, claimed)); CALL(en_ = end_%(I)s(g, claimed));
+                         VASSERT(s == L && e == (L == 0) && en_ == (i64)(LSZ + L), "size()/empty()/end() for every length value of the type"); }
+  else VASSUME(0);
+  if (which != 1 || LSZ + L <= claimed) VASSERT(!verif_aborted, "valid vector operation: no handler");
+  VASSERT(ref_rd(g, LSZ, %(be)d) == NL, "length prefix == size of the vector model for every length of the type (pop_back, resize(n, default_init), clear)");
+  for (unsigned i = LSZ; i < TOT; i++) VASSERT(g[i] == old[i], "operations that only change the size never touch the payload");
+""" % {"lsz": lsz, "be": 1 if be else 0, "I": I, "tmax": "0x%xULL" % ((1 << (8 * lsz)) - 1)}
+    return hgen.harness([u], b)
+
+
 def build(ctx):
     hs = []
     cap = ctx.q(4, 6)
@@ -182,4 +222,7 @@ def build(ctx):
                 hs.append(P.Harness("%s_%s_cxx%s" % (inst[0], mode, std), harness(u, inst, cap, mode == "checked"), [u], unwind=cap + 3, cap=ctx.q(300, 900),
                                     desc="dynamic_array_ref<char,%s,%s,%s>: push_back/pop_back/insert x6/erase x2/resize x3/assign x4/assign_string/assign_range/clear + observers, one step from any state, vs. vector model" % (inst[1], inst[2], "BE" if inst[5] else "LE"),
                                     bounds={"CAP": cap, "source_len": "0..3", "std": "c++" + std, "build": mode}))
+                hs.append(P.Harness("%s_widelen_%s_cxx%s" % (inst[0], mode, std), wide_len_harness(u, inst), [u], unwind=10, cap=ctx.q(120, 600), extra_flags=["--no-standard-checks"],
+                                    desc="dynamic_array_ref<char,%s,%s,%s>: pop_back / resize(n, default_init) / clear / size / empty / end with the length prefix over the WHOLE range of its type" % (inst[1], inst[2], "BE" if inst[5] else "LE"),
+                                    bounds={"length": "full range of the length type (< 2^48)", "n": "full range", "std": "c++" + std, "build": mode}))
     return hs
